@@ -1,5 +1,390 @@
 package main
 
-import "bufio"
+import (
+	"bufio"
+	"fmt"
+	"strings"
+	"unicode/utf16"
 
-func runC11(e *env, w *bufio.Writer, n int, corpus string) {}
+	"github.com/dop251/goja"
+	"github.com/dop251/goja_nodejs/buffer"
+
+	"verifharness/internal/hx"
+)
+
+// UTF-16 code units as 4 hex digits each
+func u16(units []uint16) string {
+	if len(units) == 0 {
+		return "-"
+	}
+	var sb strings.Builder
+	for _, u := range units {
+		fmt.Fprintf(&sb, "%04x", u)
+	}
+	return sb.String()
+}
+
+func jsUnits(v goja.Value) []uint16 {
+	// goja strings: ASCII or UTF-16; go through the exported Go string unless it holds lone surrogates
+	if s, ok := v.(goja.String); ok {
+		n := s.Length()
+		out := make([]uint16, n)
+		for i := 0; i < n; i++ {
+			out[i] = s.CharAt(i)
+		}
+		return out
+	}
+	return utf16.Encode([]rune(v.String()))
+}
+
+type c11 struct {
+	*env
+	fromUnits goja.Callable // String.fromCharCode.apply
+}
+
+func (e *c11) str(units []uint16) goja.Value {
+	args := make([]goja.Value, len(units))
+	for i, u := range units {
+		args[i] = e.vm.ToValue(int(u))
+	}
+	v, err := e.fromUnits(goja.Undefined(), args...)
+	if err != nil {
+		panic(err)
+	}
+	return v
+}
+
+func (e *c11) bufOf(b []byte) *goja.Object {
+	ab := e.vm.NewArrayBuffer(append([]byte(nil), b...))
+	f, _ := goja.AssertFunction(e.vm.Get("Buffer").ToObject(e.vm).Get("from"))
+	v, err := f(e.vm.Get("Buffer"), e.vm.ToValue(ab))
+	if err != nil {
+		panic(err)
+	}
+	return v.ToObject(e.vm)
+}
+
+func (e *c11) bytesOf(v goja.Value) []byte {
+	var out []byte
+	o := v.ToObject(e.vm)
+	n := int(o.Get("length").ToInteger())
+	for i := 0; i < n; i++ {
+		out = append(out, byte(o.Get(fmt.Sprint(i)).ToInteger()))
+	}
+	return out
+}
+
+// call runs f and canonicalises the outcome: value, or throw:<Class>, or PANIC
+func (e *c11) call(f func() (string, error)) (out string) {
+	defer func() {
+		if r := recover(); r != nil {
+			if ex, ok := r.(*goja.Exception); ok {
+				out = "throw:" + className(e.vm, ex.Value())
+				return
+			}
+			if o, ok := r.(*goja.Object); ok {
+				out = "throw:" + className(e.vm, o)
+				return
+			}
+			out = "PANIC"
+		}
+	}()
+	s, err := f()
+	if err != nil {
+		if ex, ok := err.(*goja.Exception); ok {
+			return "throw:" + className(e.vm, ex.Value())
+		}
+		return "throw:GoError"
+	}
+	return s
+}
+
+func className(vm *goja.Runtime, v goja.Value) string {
+	if o, ok := v.(*goja.Object); ok {
+		for _, c := range []string{"RangeError", "TypeError", "SyntaxError", "Error"} {
+			if ctor := vm.Get(c); ctor != nil && vm.InstanceOf(o, ctor.ToObject(vm)) {
+				return c
+			}
+		}
+	}
+	return "Thrown"
+}
+
+var encNames = []string{"hex", "base64", "base64url", "utf8", "utf-8", "base64Url", "~", "~", "latin1", "HEX", "ucs2"}
+
+var hexPieces = []string{"00", "ff", "7f", "0a", "AB", "cd", "1", "g", "zz", " ", "é", "0", "f"}
+var b64Pieces = []string{"QUJD", "QQ==", "QUI=", "QUI", "QQ", "Q", "-_-_", "+/+/", "\n", "\r\n", "=", "==", "!", " ", "AAAA", "////", "____", "YWJj", "é", "A"}
+
+func (e *c11) genString(enc string) []uint16 {
+	r := e.rng
+	var sb strings.Builder
+	switch {
+	case strings.EqualFold(enc, "hex") && r.Chance(85):
+		n := r.Intn(10)
+		for i := 0; i < n; i++ {
+			if r.Chance(80) {
+				fmt.Fprintf(&sb, "%02x", r.Intn(256))
+			} else {
+				sb.WriteString(hexPieces[r.Intn(len(hexPieces))])
+			}
+		}
+	case strings.HasPrefix(strings.ToLower(enc), "base64") && r.Chance(85):
+		n := r.Intn(8)
+		for i := 0; i < n; i++ {
+			sb.WriteString(b64Pieces[r.Intn(len(b64Pieces))])
+		}
+	default:
+		// text: BMP, astral, and lone surrogates
+		n := r.Intn(8)
+		var units []uint16
+		for i := 0; i < n; i++ {
+			switch r.Intn(8) {
+			case 0:
+				units = append(units, uint16(0xD800+r.Intn(0x400))) // lone high surrogate
+			case 1:
+				units = append(units, uint16(0xDC00+r.Intn(0x400))) // lone low surrogate
+			case 2:
+				units = append(units, utf16.Encode([]rune{rune(0x10000 + r.Intn(0x100000))})...)
+			case 3:
+				units = append(units, uint16(0x80+r.Intn(0x780)))
+			case 4:
+				units = append(units, uint16(0x800+r.Intn(0xD000)))
+			default:
+				units = append(units, uint16(0x20+r.Intn(0x5f)))
+			}
+		}
+		return units
+	}
+	return utf16.Encode([]rune(sb.String()))
+}
+
+func (e *c11) encVal(enc string) goja.Value {
+	if enc == "~" {
+		return goja.Undefined()
+	}
+	return e.vm.ToValue(enc)
+}
+
+func (e *c11) genBytes() []byte {
+	r := e.rng
+	n := r.Intn(12)
+	switch r.Intn(5) {
+	case 0: // well-formed UTF-8
+		var rs []rune
+		for i := 0; i < n/2+1; i++ {
+			rs = append(rs, []rune{'a', 'é', '€', '😀', 0x7ff, 0x800, 0xffff, 0x10000}[r.Intn(8)])
+		}
+		return []byte(string(rs))
+	case 1: // ill-formed UTF-8 of several kinds
+		pieces := [][]byte{{0xc3}, {0xe2, 0x82}, {0xf0, 0x9f, 0x98}, {0x80}, {0xc0, 0xaf}, {0xed, 0xa0, 0x80}, {0xf4, 0x90, 0x80, 0x80}, {0xff}, {0x61}, {0xe2, 0x82, 0xac}}
+		var out []byte
+		for i := 0; i < 1+r.Intn(4); i++ {
+			out = append(out, pieces[r.Intn(len(pieces))]...)
+		}
+		return out
+	}
+	return r.Bytes(n)
+}
+
+func runC11(env0 *env, w *bufio.Writer, n int, corpus string) {
+	e := &c11{env: env0}
+	f, err := e.vm.RunString(`(function(){ return String.fromCharCode.apply(null, arguments); })`)
+	if err != nil {
+		panic(err)
+	}
+	e.fromUnits, _ = goja.AssertFunction(f)
+	bufCtor := e.vm.Get("Buffer").ToObject(e.vm)
+	from, _ := goja.AssertFunction(bufCtor.Get("from"))
+	alloc, _ := goja.AssertFunction(bufCtor.Get("alloc"))
+	r := e.rng
+	// exhaustive small byte strings for the round trips
+	for _, enc := range []string{"hex", "base64", "base64url", "utf8"} {
+		for a := 0; a < 256; a++ {
+			e.emitRT(w, enc, []byte{byte(a)})
+		}
+		e.emitRT(w, enc, nil)
+	}
+	for i := 0; i < n; i++ {
+		enc := encNames[r.Intn(len(encNames))]
+		switch k := r.Intn(100); {
+		case k < 18: // Buffer.from(string, enc)
+			s := e.genString(enc)
+			e.st.Hit("kind:FROM")
+			out := e.call(func() (string, error) {
+				v, err := from(bufCtor, e.str(s), e.encVal(enc))
+				if err != nil {
+					return "", err
+				}
+				return hx.Hex(e.bytesOf(v)), nil
+			})
+			fmt.Fprintf(w, "C11 FROM %s %s => %s\n", enc, u16(s), out)
+		case k < 26: // DecodeBytes (Go helper)
+			s := e.genString(enc)
+			e.st.Hit("kind:DECB")
+			out := e.call(func() (string, error) {
+				return hx.Hex(buffer.DecodeBytes(e.vm, e.str(s), e.encVal(enc))), nil
+			})
+			fmt.Fprintf(w, "C11 DECB %s %s => %s\n", enc, u16(s), out)
+		case k < 38: // alloc fill
+			s := e.genString(enc)
+			size := r.Intn(12)
+			e.st.Hit("kind:FILL")
+			out := e.call(func() (string, error) {
+				v, err := alloc(bufCtor, e.vm.ToValue(size), e.str(s), e.encVal(enc))
+				if err != nil {
+					return "", err
+				}
+				return hx.Hex(e.bytesOf(v)), nil
+			})
+			fmt.Fprintf(w, "C11 FILL %s %d %s => %s\n", enc, size, u16(s), out)
+		case k < 55: // write
+			s := e.genString(enc)
+			b := r.Bytes(r.Intn(10))
+			off := 0
+			if len(b) > 0 {
+				off = r.Intn(len(b) + 1)
+			}
+			lenTok := "~"
+			var lenVal goja.Value = goja.Undefined()
+			if r.Chance(60) {
+				l := r.Intn(12)
+				lenTok = fmt.Sprint(l)
+				lenVal = e.vm.ToValue(l)
+			}
+			e.st.Hit("kind:WRITE")
+			out := e.call(func() (string, error) {
+				bo := e.bufOf(b)
+				wr, _ := goja.AssertFunction(bo.Get("write"))
+				v, err := wr(bo, e.str(s), e.vm.ToValue(off), lenVal, e.encVal(enc))
+				if err != nil {
+					return "", err
+				}
+				return fmt.Sprintf("%d %s", v.ToInteger(), hx.Hex(e.bytesOf(bo))), nil
+			})
+			fmt.Fprintf(w, "C11 WRITE %s %s %s %d %s => %s\n", enc, hx.Hex(b), u16(s), off, lenTok, out)
+		case k < 72: // toString range
+			b := e.genBytes()
+			pool := []float64{0, 1, 2, 3, -1, -5, float64(len(b)), float64(len(b)) - 1, float64(len(b)) + 1, 1e30, -1e30, 2.7, 0.5}
+			arg := func() (string, goja.Value) {
+				switch r.Intn(10) {
+				case 0:
+					return "U", goja.Undefined()
+				case 1:
+					return "X", e.vm.ToValue("1")
+				default:
+					f := pool[r.Intn(len(pool))]
+					return "N:" + hx.F64Bits(f), e.vm.ToValue(f)
+				}
+			}
+			st, sv := arg()
+			en, ev := arg()
+			e.st.Hit("kind:TOSTR")
+			out := e.call(func() (string, error) {
+				bo := e.bufOf(b)
+				ts, _ := goja.AssertFunction(bo.Get("toString"))
+				v, err := ts(bo, e.encVal(enc), sv, ev)
+				if err != nil {
+					return "", err
+				}
+				return u16(jsUnits(v)), nil
+			})
+			fmt.Fprintf(w, "C11 TOSTR %s %s %s %s => %s\n", enc, hx.Hex(b), st, en, out)
+		case k < 78: // EncodeBytes
+			b := e.genBytes()
+			encName := []string{"hex", "base64", "base64url", "utf8", "nope"}[r.Intn(5)]
+			e.st.Hit("kind:ENCB")
+			out := e.call(func() (string, error) {
+				v := buffer.EncodeBytes(e.vm, b, e.vm.ToValue(encName))
+				if goja.IsString(v) {
+					return u16(jsUnits(v)), nil
+				}
+				return "buffer", nil
+			})
+			fmt.Fprintf(w, "C11 ENCB %s %s => %s\n", encName, hx.Hex(b), out)
+		case k < 88: // round trip
+			e.emitRT(w, []string{"hex", "base64", "base64url", "utf8"}[r.Intn(4)], e.genBytes())
+		case k < 94: // array-like
+			m := r.Intn(6)
+			toks := []string{}
+			arr := e.vm.NewObject()
+			arr.Set("length", m)
+			for i := 0; i < m; i++ {
+				if r.Chance(10) {
+					toks = append(toks, "U")
+					continue
+				}
+				f := []float64{0, 1, 255, 256, 257, -1, -256, 1e3, 65535.9, -0.5, 4294967296, 300.7}[r.Intn(12)]
+				toks = append(toks, "N:"+hx.F64Bits(f))
+				arr.Set(fmt.Sprint(i), f)
+			}
+			e.st.Hit("kind:ALIKE")
+			out := e.call(func() (string, error) {
+				v, err := from(bufCtor, arr)
+				if err != nil {
+					return "", err
+				}
+				return hx.Hex(e.bytesOf(v)), nil
+			})
+			fmt.Fprintf(w, "C11 ALIKE %d %s => %s\n", m, strings.Join(toks, " "), out)
+		case k < 97: // equals
+			a := e.genBytes()
+			b := a
+			if r.Bool() {
+				b = e.genBytes()
+			}
+			e.st.Hit("kind:EQ")
+			out := e.call(func() (string, error) {
+				bo := e.bufOf(a)
+				eq, _ := goja.AssertFunction(bo.Get("equals"))
+				v, err := eq(bo, e.bufOf(b))
+				if err != nil {
+					return "", err
+				}
+				if v.ToBoolean() {
+					return "t", nil
+				}
+				return "f", nil
+			})
+			fmt.Fprintf(w, "C11 EQ %s %s => %s\n", hx.Hex(a), hx.Hex(b), out)
+		default: // copy vs share
+			kind := []string{"buffer", "typedarray", "arraybuffer"}[r.Intn(3)]
+			e.st.Hit("kind:COPY")
+			out := e.call(func() (string, error) {
+				e.vm.Set("__kind", kind)
+				v, err := e.vm.RunString(`(function(){
+					var src = new Uint8Array([1,2,3,4]);
+					var arg = __kind === "arraybuffer" ? src.buffer : (__kind === "buffer" ? Buffer.from(src.buffer) : src);
+					var b = Buffer.from(arg);
+					src[0] = 9;
+					return b[0] === 9 ? "shared" : "copied";
+				})()`)
+				if err != nil {
+					return "", err
+				}
+				// a Buffer made from src.buffer shares with src; a Buffer made from that Buffer must copy
+				return v.String(), nil
+			})
+			fmt.Fprintf(w, "C11 COPY %s => %s\n", kind, out)
+		}
+	}
+}
+
+func (e *c11) emitRT(w *bufio.Writer, enc string, b []byte) {
+	e.st.Hit("kind:RT:" + enc)
+	bufCtor := e.vm.Get("Buffer").ToObject(e.vm)
+	from, _ := goja.AssertFunction(bufCtor.Get("from"))
+	out := e.call(func() (string, error) {
+		bo := e.bufOf(b)
+		ts, _ := goja.AssertFunction(bo.Get("toString"))
+		s, err := ts(bo, e.vm.ToValue(enc))
+		if err != nil {
+			return "", err
+		}
+		v, err := from(bufCtor, s, e.vm.ToValue(enc))
+		if err != nil {
+			return "", err
+		}
+		return hx.Hex(e.bytesOf(v)), nil
+	})
+	fmt.Fprintf(w, "C11 RT %s %s => %s\n", enc, hx.Hex(b), out)
+}
